@@ -10,7 +10,7 @@ MUTANTS = [
     {'name': 'importer labels ornaments as insertions', 'file': 'partitura/io/importmatch.py', 'old': '                    label="ornament",', 'new': '                    label="insertion",', 'expect': 'F6-labels'},
     {'name': 'exporter converts pedal time with default clock', 'file': 'partitura/io/exportmatch.py', 'old': '        t = seconds_to_midi_ticks(c["time"], mpq=mpq, ppq=ppq)\n        value = int(c["value"])', 'new': '        t = seconds_to_midi_ticks(c["time"])\n        value = int(c["value"])', 'expect': 'CLOCK'}]
 
-NEUTRALS = []
+NEUTRALS = [{'name': 'tick conversion through a local wrapper', 'file': 'partitura/io/exportmatch.py', 'old': '        t = seconds_to_midi_ticks(c["time"], mpq=mpq, ppq=ppq)\n', 'new': '        to_ticks = lambda sec: seconds_to_midi_ticks(sec, mpq=mpq, ppq=ppq)\n        t = to_ticks(c["time"])\n'}, ]
 
 # changes made by sub-agents that were given only the property text (see /verif/seeded/<id>/): each must stay reported
 SEEDED = [
